@@ -30,18 +30,25 @@ Fixpoint LOOPG (n : nat) (ls : lexstate) (s : list ch) (ln : Z) (harmony : bool)
            let tb := lx_timebase ls in
            let push (x : res (tok * list ch * Z)) : res lex_out :=
              do y <- x; let '(t, s', ln') := y in LOOPG n' ls s' ln' harmony (acc ++ [t]) in
+           let pusho (x : res (option tok * list ch * Z)) : res lex_out :=
+             do y <- x; let '(ot, s', ln') := y in
+             LOOPG n' ls s' ln' harmony (match ot with Some t => acc ++ [t] | None => acc end) in
            if (c =? 32) || (c =? 9) || (c =? 13) || (c =? 124) || (c =? 59) then LOOPG n' ls r ln harmony acc
            else if c =? 10 then LOOPG n' ls r (ln + 1) harmony (acc ++ [TLineNo (ln + 1)])
            else if (c =? 99) || (c =? 100) || (c =? 101) || (c =? 102) || (c =? 103) || (c =? 97) || (c =? 98) then
              push (Ok (read_note c r ln))
            else if c =? 110 then push (read_note_n tb r ln)
            else if c =? 114 then push (Ok (read_rest r ln))
-           else if c =? 108 then push (read_length r ln)
-           else if c =? 111 then push (read_octave tb r ln)
+           else if c =? 108 then pusho (read_length tb r ln)
+           else if c =? 111 then pusho (read_octave tb r ln)
            else if ((c =? 113) || (c =? 118)) && negb (prefixb (zs "Add") r || ((c =? 113) && prefixb (zs "2Add") r)) then
-             (if c =? 113 then push (read_qlen tb r ln) else push (read_velocity tb r ln))
-           else if c =? 116 then push (read_timing tb r ln)
-           else if (c =? 112) || (c =? 121) then Unsupported U_CHAR
+             (if c =? 113 then pusho (read_qlen tb r ln) else pusho (read_velocity tb r ln))
+           else if c =? 116 then pusho (read_timing tb r ln)
+           else if c =? 112 then push (read_pitch_bend 0 tb r ln)
+           else if c =? 121 then
+             do ra <- read_cc ls false r ln;
+             let '(ot, s2, ln2, ls') := ra in
+             LOOPG n' ls' s2 ln2 harmony (match ot with Some t => acc ++ [t] | None => acc end)
            else if is_upper c || (c =? 95) || (c =? 113) || (c =? 118) then
              (* cur.prev(): the command is re-read from the ORIGINAL character (vAdd / qAdd / q2Add arrive here too) *)
              (* cur.prev(); cur.replace_char(ch): the command is re-read with the converted character *)
@@ -64,7 +71,7 @@ Fixpoint LOOPG (n : nat) (ls : lexstate) (s : list ch) (ln : Z) (harmony : bool)
                      do cv <- check_variables ls word s1 ln;
                      let '(ot, s2, ln2, ls') := cv in
                      LOOPG n' ls' s2 ln2 harmony (match ot with Some t => acc ++ [t] | None => acc end)
-                 | Some (ttype, (argt, _)) =>
+                 | Some (ttype, (argt, (tag1, tag2))) =>
                    if ((argt =? 73) || (argt =? 65)) &&
                       (list_eqb ttype (zs "Time") || list_eqb ttype (zs "PlayFrom") || list_eqb ttype (zs "TimeSignature")
                        || list_eqb ttype (zs "TieMode")) then
@@ -127,7 +134,10 @@ Fixpoint LOOPG (n : nat) (ls : lexstate) (s : list ch) (ln : Z) (harmony : bool)
                      do sub <- sublex ls block ln2;
                      let '(toks, ls') := sub in
                      LOOPG n' ls' s4 ln4 harmony (acc ++ [TDiv (div_count toks) len toks])
-                   else Unsupported U_UPPER
+                   else
+                     do ra <- read_ext_command ls ttype argt tag1 tag2 s1 ln;
+                     let '(ot, s2, ln2, ls') := ra in
+                     LOOPG n' ls' s2 ln2 harmony (match ot with Some t => acc ++ [t] | None => acc end)
                  end
              else Unsupported U_CHAR   (* a full-width capital: prev() re-reads the unconverted character *)
            else if c =? 35 then
@@ -205,9 +215,11 @@ Fixpoint LOOPG (n : nat) (ls : lexstate) (s : list ch) (ln : Z) (harmony : bool)
 End LoopCopy.
 Definition LOOP (f : nat) := LOOPG (lex_f f).
 
-(* lex_f (S f) is this loop, started with fuel S (length src), no open chord, and the initial LineNo token *)
+(* lex_f (S f) is this loop - after the scan of lex_preprocess, which sends every source that defines a user function
+   outside the model - started with fuel S (length src), no open chord, and the initial LineNo token *)
 Lemma lex_f_unfold : forall f ls src ln,
-  lex_f (S f) ls src ln = LOOP f (S (length src)) ls src ln false [TLineNo ln].
+  lex_f (S f) ls src ln
+  = if lex_pre src then Unsupported U_FUNCTION else LOOP f (S (length src)) ls src ln false [TLineNo ln].
 Proof.
   intros. cbn [lex_f]. unfold LOOP. cbn [LOOPG].
   (* in step with the model this takes well under a second; a copy that is out of date would send the conversion
@@ -215,8 +227,13 @@ Proof.
   Timeout 60 reflexivity.
 Timeout 300 Qed.
 Lemma lex_unfold : forall ls src ln,
-  lex ls src ln = LOOP (length src) (S (length src)) ls src ln false [TLineNo ln].
+  lex ls src ln
+  = if lex_pre src then Unsupported U_FUNCTION else LOOP (length src) (S (length src)) ls src ln false [TLineNo ln].
 Proof. intros. unfold lex. apply lex_f_unfold. Qed.
+(* a source in which the scan finds no FUNCTION / Function *)
+Lemma lex_unfold_plain : forall ls src ln, lex_pre src = false ->
+  lex ls src ln = LOOP (length src) (S (length src)) ls src ln false [TLineNo ln].
+Proof. intros ls src ln H. rewrite lex_unfold, H. reflexivity. Qed.
 
 (* ------------------------------------------------------------------------------------------ *)
 (* 1. cursor helpers used by the comment arms                                                   *)
@@ -693,10 +710,10 @@ Proof.
   induction its as [|i its IH]; cbn [print_items length]; [lia|]. rewrite app_length.
   assert (1 <= length (print_item i))%nat by (destruct i; cbn [print_item length]; lia). lia.
 Qed.
-Theorem lex_items its ls ln : forallb litem_ok its = true ->
+Theorem lex_items its ls ln : forallb litem_ok its = true -> lex_pre (print_items its) = false ->
   lex ls (print_items its) ln = Ok (TLineNo ln :: items_toks ln its, items_ls ls [] ln its).
 Proof.
-  intros H. rewrite lex_unfold.
+  intros H NF. rewrite (lex_unfold_plain _ _ _ NF).
   pose proof (print_items_length its) as L.
   transitivity (LOOP (length (print_items its)) (length its + S (length (print_items its) - length its))
                      ls (print_items its ++ []) ln false [TLineNo ln]).
@@ -913,13 +930,14 @@ Qed.
 (* the whole lexer on  layout, note, layout, note, ... : the tokens are the notes, in order, plus LineNo / Comment *)
 Theorem lex_nprog its0 p ls ln :
   forallb litem_ok its0 = true -> forallb is_layout its0 = true -> nprog_ok p [] (ln + items_lines its0) = true ->
+  lex_pre (print_items its0 ++ print_nprog p) = false ->
   lex ls (print_items its0 ++ print_nprog p) ln
   = Ok (TLineNo ln :: items_toks ln its0 ++ nprog_toks p (ln + items_lines its0), ls)
   /\ erase_lineno (TLineNo ln :: items_toks ln its0 ++ nprog_toks p (ln + items_lines its0))
      = map (fun xi => snote_tok (fst xi)) p.
 Proof.
-  intros H0 L0 HP. split.
-  - rewrite lex_unfold.
+  intros H0 L0 HP NF. split.
+  - rewrite (lex_unfold_plain _ _ _ NF).
     pose proof (print_items_length its0) as A. pose proof (nprog_fuel_length p) as B.
     set (src := print_items its0 ++ print_nprog p).
     set (k := S (length src - length its0 - nprog_fuel p)).
@@ -941,12 +959,13 @@ Theorem notes_layout its1 p1 its2 p2 ls ln :
   forallb litem_ok its1 = true -> forallb is_layout its1 = true -> nprog_ok p1 [] (ln + items_lines its1) = true ->
   forallb litem_ok its2 = true -> forallb is_layout its2 = true -> nprog_ok p2 [] (ln + items_lines its2) = true ->
   map (fun xi => snote_tok (fst xi)) p1 = map (fun xi => snote_tok (fst xi)) p2 ->
+  lex_pre (print_items its1 ++ print_nprog p1) = false -> lex_pre (print_items its2 ++ print_nprog p2) = false ->
   exists t1 t2, lex ls (print_items its1 ++ print_nprog p1) ln = Ok (t1, ls)
              /\ lex ls (print_items its2 ++ print_nprog p2) ln = Ok (t2, ls)
              /\ erase_lineno t1 = erase_lineno t2
              /\ erase_lineno t1 = map (fun xi => snote_tok (fst xi)) p1.
 Proof.
-  intros A1 B1 C1 A2 B2 C2 E.
-  destruct (lex_nprog its1 p1 ls ln A1 B1 C1) as [X1 Y1]. destruct (lex_nprog its2 p2 ls ln A2 B2 C2) as [X2 Y2].
+  intros A1 B1 C1 A2 B2 C2 E N1 N2.
+  destruct (lex_nprog its1 p1 ls ln A1 B1 C1 N1) as [X1 Y1]. destruct (lex_nprog its2 p2 ls ln A2 B2 C2 N2) as [X2 Y2].
   eexists. eexists. split; [exact X1|]. split; [exact X2|]. split; [rewrite Y1, Y2; exact E|exact Y1].
 Qed.
